@@ -3,6 +3,7 @@ package interpreter
 import (
 	"fmt"
 	"math"
+	"reflect"
 	"strconv"
 
 	"github.com/ah-naf/borno/ast"
@@ -850,7 +851,60 @@ func isTruthy(value interface{}) bool {
 }
 
 func isEqual(a, b interface{}) bool {
+	switch x := a.(type) {
+	case nil:
+		return b == nil
+	case bool:
+		y, ok := b.(bool)
+		return ok && x == y
+	case float64, int64, int:
+		// numbers compare by numeric value, whatever their host representation
+		switch b.(type) {
+		case float64, int64, int:
+			return numericValue(a) == numericValue(b)
+		}
+		return false
+	case string:
+		switch y := b.(type) {
+		case string:
+			return x == y
+		case []rune:
+			return x == string(y)
+		}
+		return false
+	case []rune:
+		switch y := b.(type) {
+		case string:
+			return string(x) == y
+		case []rune:
+			return string(x) == string(y)
+		}
+		return false
+	case []interface{}:
+		// arrays are references: equal only to themselves
+		y, ok := b.([]interface{})
+		return ok && len(x) == len(y) && reflect.ValueOf(x).Pointer() == reflect.ValueOf(y).Pointer()
+	case map[string]interface{}:
+		// objects are references: equal only to themselves
+		y, ok := b.(map[string]interface{})
+		return ok && reflect.ValueOf(x).Pointer() == reflect.ValueOf(y).Pointer()
+	}
+	if b == nil || reflect.TypeOf(a) != reflect.TypeOf(b) || !reflect.TypeOf(a).Comparable() {
+		return false
+	}
 	return a == b
+}
+
+func numericValue(v interface{}) float64 {
+	switch n := v.(type) {
+	case int64:
+		return float64(n)
+	case int:
+		return float64(n)
+	case float64:
+		return n
+	}
+	return math.NaN()
 }
 
 func getLineNumber(expr ast.Expr) int {
